@@ -5,8 +5,10 @@ package main
 import (
 	"context"
 	"errors"
+	"fmt"
 	"math/big"
 	"sync"
+	"sync/atomic"
 	"time"
 
 	"github.com/NethermindEth/juno/blockchain"
@@ -15,6 +17,7 @@ import (
 	"github.com/NethermindEth/juno/core/felt"
 	"github.com/NethermindEth/juno/db/memory"
 	"github.com/NethermindEth/juno/l1"
+	"github.com/NethermindEth/juno/l1/eth"
 	"github.com/NethermindEth/juno/utils/log"
 	"verif/harness/lib"
 )
@@ -27,6 +30,8 @@ type Mark struct {
 	Kind        string `json:"kind"`
 	Consumed    int    `json:"consumed"`
 	Fin         uint64 `json:"fin,omitempty"`
+	NodeFin     uint64 `json:"node_fin,omitempty"` // geth family: what the L1 node answered
+	HasNodeFin  bool   `json:"has_node_fin,omitempty"`
 	From        uint64 `json:"from,omitempty"`
 	To          uint64 `json:"to,omitempty"`
 	PreWatch    bool   `json:"prewatch,omitempty"`
@@ -43,6 +48,10 @@ type Observed struct {
 	RunErr    string  `json:"run_err,omitempty"`
 	Stalled   string  `json:"stalled,omitempty"`
 	Panic     string  `json:"panic,omitempty"`
+	// geth family: what the fake node pushed on the subscription / answered to eth_getLogs
+	Emitted      []Log    `json:"emitted,omitempty"`
+	FilterGot    [][]Log  `json:"filter_got,omitempty"`
+	GethProblems []string `json:"geth_problems,omitempty"`
 }
 
 type scriptedSub struct {
@@ -83,6 +92,102 @@ type provider struct {
 	watched      bool
 	watchOK      int
 	closed       bool
+
+	// geth family
+	inner     l1.L1StateProvider
+	node      *fakeNode
+	sentinels uint64
+	paused    bool
+	subDown   int
+	filterGot [][]Log
+	problems  []string
+}
+
+func fromSU(u *l1.StateUpdate) Log {
+	return Log{L2: u.L2BlockNumber, Hash: u.L2BlockHash.Uint64(), Root: u.StateRoot.Uint64(), L1: u.L1RefHeight, Removed: u.Removed}
+}
+
+// tapSub is the subscription handed to the client in the geth family: the real forwarder's
+// subscription plus the pump that moves its output onto the client's channel.
+type tapSub struct {
+	inner l1.Subscription
+	quit  chan struct{}
+	errc  chan error
+	once  sync.Once
+}
+
+func (t *tapSub) Err() <-chan error { return t.errc }
+
+// watchInner relays the end of the real subscription to the client and tells the controller
+// that the geth client has noticed the dropped connection.
+func (p *provider) watchInner(t *tapSub) {
+	select {
+	case err, ok := <-t.inner.Err():
+		p.mu.Lock()
+		p.subDown++
+		p.cond.Broadcast()
+		p.mu.Unlock()
+		if ok && err != nil {
+			t.errc <- err
+		}
+		close(t.errc)
+	case <-t.quit:
+	}
+}
+
+// gate blocks provider calls while the controller drops the connection (p.mu held).
+func (p *provider) gate() {
+	for p.paused {
+		p.cond.Wait()
+	}
+}
+func (t *tapSub) Unsubscribe() {
+	t.once.Do(func() { close(t.quit) })
+	t.inner.Unsubscribe()
+}
+
+// pump forwards what the REAL forwardStateUpdates goroutine delivers to the client's channel,
+// under the same mutex as the provider marks (exact consumed counts), and filters the sentinels.
+func (p *provider) pump(mid chan *l1.StateUpdate, out chan<- *l1.StateUpdate, quit chan struct{}) {
+	n := 0
+	for {
+		var su *l1.StateUpdate
+		select {
+		case su = <-mid:
+		case <-quit:
+			return
+		}
+		if n++; n%3 == 0 {
+			time.Sleep(150 * time.Microsecond) // a consumer that is sometimes slow
+		}
+		if su.L2BlockNumber >= sentinelBase && !su.Removed {
+			p.mu.Lock()
+			if k := su.L2BlockNumber - sentinelBase + 1; k > p.sentinels {
+				p.sentinels = k
+			}
+			p.cond.Broadcast()
+			p.mu.Unlock()
+			continue
+		}
+		for {
+			p.mu.Lock()
+			select {
+			case out <- su:
+				p.sent++
+				p.events = append(p.events, fromSU(su))
+				p.mu.Unlock()
+			default:
+				p.mu.Unlock()
+				select {
+				case <-quit:
+					return
+				case <-time.After(50 * time.Microsecond):
+				}
+				continue
+			}
+			break
+		}
+	}
 }
 
 func headJ(h *core.L1Head) *HeadJ {
@@ -123,6 +228,11 @@ func (p *provider) mark(m Mark) {
 func (p *provider) ChainID(ctx context.Context) (*big.Int, error) {
 	p.mu.Lock()
 	defer p.mu.Unlock()
+	if p.inner != nil {
+		p.gate()
+		p.mark(Mark{Kind: "chainid"})
+		return p.inner.ChainID(ctx)
+	}
 	if p.chainIDFails > 0 {
 		p.chainIDFails--
 		p.mark(Mark{Kind: "chainidfail"})
@@ -138,6 +248,16 @@ func (p *provider) ChainID(ctx context.Context) (*big.Int, error) {
 func (p *provider) LatestHeight(ctx context.Context) (uint64, error) {
 	p.mu.Lock()
 	defer p.mu.Unlock()
+	if p.inner != nil {
+		p.gate()
+		p.latestOK = true
+		p.mark(Mark{Kind: "latest"})
+		v, err := p.inner.LatestHeight(ctx)
+		if err != nil || v != p.c.Latest {
+			p.problems = append(p.problems, fmt.Sprintf("LatestHeight = %d, %v; the node answered %d", v, err, p.c.Latest))
+		}
+		return v, err
+	}
 	if p.c.LatestFail {
 		p.mark(Mark{Kind: "latestfail"})
 		return 0, errScripted
@@ -150,6 +270,35 @@ func (p *provider) LatestHeight(ctx context.Context) (uint64, error) {
 func (p *provider) FinalisedHeight(ctx context.Context) (uint64, error) {
 	p.mu.Lock()
 	defer p.mu.Unlock()
+	if p.inner != nil {
+		p.gate()
+		first := p.latestOK && !p.fin1Done
+		p.fin1Done = true
+		p.mark(Mark{Kind: "tick"})
+		m := &p.marks[len(p.marks)-1]
+		v, err := p.inner.FinalisedHeight(ctx)
+		p.node.mu.Lock()
+		want := p.node.lastFinAnswer
+		p.node.mu.Unlock()
+		switch {
+		case err != nil:
+			m.Kind = "finerr"
+			if first {
+				m.Kind = "fin1fail"
+			}
+		case first:
+			m.Kind, m.Fin = "fin1", v
+		default:
+			m.Fin = v
+		}
+		if err == nil {
+			m.NodeFin, m.HasNodeFin = want, true
+		}
+		if err == nil && v != want {
+			p.problems = append(p.problems, fmt.Sprintf("FinalisedHeight = %d; the node answered %d", v, want))
+		}
+		return v, err
+	}
 	if p.latestOK && !p.fin1Done {
 		p.fin1Done = true
 		if p.c.Fin1Fail {
@@ -176,6 +325,23 @@ func (p *provider) FinalisedHeight(ctx context.Context) (uint64, error) {
 func (p *provider) FilterStateUpdate(ctx context.Context, from, to uint64) ([]*l1.StateUpdate, error) {
 	p.mu.Lock()
 	defer p.mu.Unlock()
+	if p.inner != nil {
+		p.gate()
+		p.mark(Mark{Kind: "filter", From: from, To: to})
+		m := &p.marks[len(p.marks)-1]
+		out, err := p.inner.FilterStateUpdate(ctx, from, to)
+		if err != nil {
+			m.Kind = "filterfail"
+			p.problems = append(p.problems, "FilterStateUpdate failed: "+err.Error())
+			return out, err
+		}
+		got := []Log{}
+		for _, u := range out {
+			got = append(got, fromSU(u))
+		}
+		p.filterGot = append(p.filterGot, got)
+		return out, nil
+	}
 	n := p.filterCalls
 	p.filterCalls++
 	if p.c.FilterFailAt >= 0 && n == p.c.FilterFailAt {
@@ -195,6 +361,25 @@ func (p *provider) FilterStateUpdate(ctx context.Context, from, to uint64) ([]*l
 func (p *provider) WatchStateUpdate(ctx context.Context, ch chan<- *l1.StateUpdate) (l1.Subscription, error) {
 	p.mu.Lock()
 	defer p.mu.Unlock()
+	if p.inner != nil {
+		p.gate()
+		mid := make(chan *l1.StateUpdate, 1) // small: the forwarder must block on a slow consumer, not drop
+		isub, err := p.inner.WatchStateUpdate(ctx, mid)
+		if err != nil {
+			p.mark(Mark{Kind: "watchfail"})
+			p.watched = true
+			return nil, err
+		}
+		p.mark(Mark{Kind: "watch"})
+		p.watched = true
+		p.ch = ch
+		ts := &tapSub{inner: isub, quit: make(chan struct{}), errc: make(chan error, 1)}
+		go p.pump(mid, ch, ts.quit)
+		go p.watchInner(ts)
+		p.watchOK++
+		p.cond.Broadcast()
+		return ts, nil
+	}
 	if p.watchFails > 0 {
 		p.watchFails--
 		p.mark(Mark{Kind: "watchfail"})
@@ -211,6 +396,9 @@ func (p *provider) WatchStateUpdate(ctx context.Context, ch chan<- *l1.StateUpda
 }
 
 func (p *provider) Close() {
+	if p.inner != nil {
+		p.inner.Close()
+	}
 	p.mu.Lock()
 	p.closed = true
 	p.cond.Broadcast()
@@ -227,7 +415,13 @@ func toSU(l Log) *l1.StateUpdate {
 	}
 }
 
-const barrierTimeout = 20 * time.Second
+const barrierTimeout = 10 * time.Second
+
+// stalls counts cases that did not reach a barrier; after a few of them the remaining cases are
+// skipped (a broken client would otherwise cost one timeout per case).
+var stalls atomic.Int32
+
+const maxStalls = 6
 
 // waitFor blocks until pred (evaluated under p.mu) holds; false on timeout.
 func (p *provider) waitFor(pred func() bool) bool {
@@ -268,7 +462,11 @@ func (p *provider) syncBarrier() bool {
 	return p.waitFor(func() bool {
 		for i := start; i < len(p.marks); i++ {
 			m := p.marks[i]
-			if m.Kind == "tick" && m.Consumed == p.sent && m.Fin == p.cur && len(p.marks) > i+1 {
+			fin := m.Fin
+			if m.HasNodeFin {
+				fin = m.NodeFin
+			}
+			if m.Kind == "tick" && m.Consumed == p.sent && fin == p.cur && len(p.marks) > i+1 {
 				return true
 			}
 		}
@@ -279,6 +477,15 @@ func (p *provider) syncBarrier() bool {
 // runCase drives the real l1.Client through the script and returns what was observed.
 func runCase(c *Case) *Observed {
 	obs := &Observed{}
+	if stalls.Load() >= maxStalls {
+		obs.Stalled = "skipped: too many earlier cases did not reach their barriers"
+		return obs
+	}
+	defer func() {
+		if obs.Stalled != "" {
+			stalls.Add(1)
+		}
+	}()
 	database := memory.New()
 	chain := blockchain.New(database, &networks.Mainnet)
 	if c.Stored != nil {
@@ -291,6 +498,22 @@ func runCase(c *Case) *Observed {
 	p := &provider{c: c, chain: chain, cur: c.Fin2, chainIDFails: c.ChainIDFails,
 		fin2Fails: c.Fin2Fails, watchFails: c.WatchFails}
 	p.cond = sync.NewCond(&p.mu)
+	if c.Geth {
+		node, err := newFakeNode(c)
+		if err != nil {
+			obs.Stalled = "fake node: " + err.Error()
+			return obs
+		}
+		defer node.close()
+		dctx, dcancel := context.WithTimeout(context.Background(), barrierTimeout)
+		gp, err := l1.NewGethL1StateProvider(dctx, node.url, eth.Address(coreContract))
+		dcancel()
+		if err != nil {
+			obs.Stalled = "dial fake node: " + err.Error()
+			return obs
+		}
+		p.inner, p.node = gp, node
+	}
 
 	listener := l1.SelectiveListener{OnNewL1HeadCb: func(h *core.L1Head) {
 		// called from the client goroutine, never from inside a provider call
@@ -390,14 +613,96 @@ func runCase(c *Case) *Observed {
 	obs.Marks = append([]Mark(nil), p.marks...)
 	obs.Events = append([]Log(nil), p.events...)
 	obs.Notes = append([]HeadJ(nil), p.notes...)
+	obs.FilterGot = p.filterGot
+	obs.GethProblems = p.problems
 	p.mu.Unlock()
+	if p.node != nil {
+		p.node.mu.Lock()
+		obs.Emitted = append([]Log(nil), p.node.emitted...)
+		p.node.mu.Unlock()
+	}
 	obs.FinalHead = p.storedHead()
 	return obs
 }
 
 func itoa(i int) string { return big.NewInt(int64(i)).String() }
 
+// drain: everything the node has pushed so far has come out of the real forwarder (or was
+// swallowed by it): a sentinel log pushed now has been seen by the pump.
+func (p *provider) drain() bool {
+	p.mu.Lock()
+	k := p.sentinels
+	p.mu.Unlock()
+	deadline := time.Now().Add(barrierTimeout)
+	for time.Now().Before(deadline) {
+		// the sentinel is re-sent if it does not come out (a forwarder that loses logs may lose it)
+		p.node.mu.Lock()
+		p.node.emit0(sentinelLog(k))
+		p.node.mu.Unlock()
+		until := time.Now().Add(100 * time.Millisecond)
+		for time.Now().Before(until) {
+			p.mu.Lock()
+			done := p.sentinels > k || p.closed
+			p.mu.Unlock()
+			if done {
+				return true
+			}
+			time.Sleep(20 * time.Microsecond)
+		}
+	}
+	return false
+}
+
+func execGethOp(p *provider, op Op) bool {
+	switch op.Kind {
+	case "send":
+		p.node.emit(op.Logs, true)
+		return p.drain()
+	case "fin":
+		p.node.mu.Lock()
+		p.node.cur = op.Fin
+		p.node.mu.Unlock()
+		p.mu.Lock()
+		p.cur = op.Fin
+		p.mu.Unlock()
+		return true
+	case "sync":
+		return p.syncBarrier()
+	case "finfail":
+		p.node.mu.Lock()
+		p.node.finFails = op.N
+		p.node.mu.Unlock()
+		return true
+	case "suberr":
+		if !p.drain() {
+			return false
+		}
+		// No provider call (hence no RPC of the client) is in flight while p.mu is held; further
+		// calls wait at the gate until go-ethereum's client has noticed the dead connection
+		// (a request written into a connection that is being torn down can hang until its
+		// 30 s deadline — a go-ethereum client race that has nothing to do with this property).
+		p.mu.Lock()
+		before, down := p.watchOK, p.subDown
+		p.paused = true
+		p.node.dropConnections()
+		p.mu.Unlock()
+		ok := p.waitFor(func() bool { return p.subDown > down || p.closed })
+		p.mu.Lock()
+		p.paused = false
+		p.cond.Broadcast()
+		p.mu.Unlock()
+		if !ok {
+			return false
+		}
+		return p.waitFor(func() bool { return p.watchOK > before || p.closed })
+	}
+	return true
+}
+
 func execOp(p *provider, op Op) bool {
+	if p.inner != nil {
+		return execGethOp(p, op)
+	}
 	switch op.Kind {
 	case "send":
 		for _, l := range op.Logs {
